@@ -301,6 +301,39 @@ func C19(ctx *core.Ctx) {
 					}
 				}
 			}
+			// early exits of the body: the first entry (in map order) that satisfies a
+			// test decides what is returned / what the variable holds after a break
+			header := next.Block()
+			for b := range loop {
+				if b == header {
+					continue
+				}
+				for _, sx := range b.Succs {
+					if loop[sx] {
+						continue
+					}
+					for _, x := range sx.Instrs {
+						switch y := x.(type) {
+						case *ssa.Phi:
+							for i, pb := range sx.Preds {
+								if pb == b {
+									if _, isC := ssax.Strip(y.Edges[i]).(*ssa.Const); !isC {
+										problem = "leaves the loop early (break) with an iteration-dependent value: the first matching entry in map order wins"
+									}
+								}
+							}
+						case *ssa.Return:
+							for _, rv := range y.Results {
+								if _, isC := ssax.Strip(ResolveLocal(rv)).(*ssa.Const); !isC {
+									if !isErrorType(rv.Type()) {
+										problem = "returns from inside the map range with an iteration-dependent value: the first matching entry in map order wins"
+									}
+								}
+							}
+						}
+					}
+				}
+			}
 			sort.Strings(how)
 			if problem == "" {
 				ctx.Discharge("C19.R1", construct, cc.IPos(in), "order-insensitive body: "+strings.Join(uniq(how), ", "))
@@ -326,6 +359,14 @@ func C19(ctx *core.Ctx) {
 				c, _ := ssax.AsCall(x)
 				full := c.FullName()
 				bad := full == "time.Now" || strings.HasPrefix(full, "math/rand.") || full == "os.Getenv" || full == "os.Getpid" || full == "os.Hostname" || full == "os.Environ" || strings.HasPrefix(full, "crypto/rand.") || full == "os.LookupEnv"
+				if (full == "path/filepath.Abs" || full == "os.Getwd") && fn.Pkg == cc.Pkg("parser") {
+					// the root file is made absolute once, by Compile; inside the parser a
+					// path resolved against the working directory makes *what is parsed*
+					// depend on where the compiler is run from
+					nsrc++
+					ctx.Violate("C19.R2", QName(fn)+" › call "+full, cc.IPos(in), "the parser resolves a path against the working directory: which file an include names — and so the generated text, or whether the program compiles at all — depends on the directory the compiler is run from")
+					return
+				}
 				if !bad {
 					return
 				}
